@@ -9,7 +9,7 @@ coqc -noglob -Q "$HERE/../coq/theories" SP -o "$HERE/gen/Extract.vo" "$HERE/../c
 rm -f Extract.vo Extract.vok Extract.vos
 cp ../src/*.ml .
 SORTED=$(ocamlfind ocamldep -sort *.mli *.ml)
-for drv in sppure; do
+for drv in sppure spsim; do
   OTHERS=$(for f in $SORTED; do case "$f" in sppure.ml|spsim.ml|sptrace.ml) ;; *) echo "$f";; esac; done)
   ocamlfind ocamlopt -O2 -w -a -package unix -linkpkg $OTHERS $drv.ml -o ../bin/$drv 2>/dev/null || \
   ocamlfind ocamlopt -w -a -package unix -linkpkg $OTHERS $drv.ml -o ../bin/$drv
